@@ -1,4 +1,124 @@
-From Coq Require Import List Bool Arith.
+(* C27 -- property theorems only.  [fixed] is the control flow of nifty.cl.minimization.optimize_kl
+   with fixes/C27-1..3.patch applied, [orig] the pinned control flow (see Model.v). *)
+From Coq Require Import List Bool Arith Lia.
 Import ListNotations.
-Require Import NV.C27.Model.
-Example placeholder : fix_pop fixed = true. Proof. reflexivity. Qed.
+Require Import NV.C27.Model NV.C27.Proofs.
+
+(* Every configuration that meets the documented preconditions -- at least one iteration, resume
+   only with an output directory, an inspect callback of one or two parameters (or none), no
+   samples without a sampling controller, fresh stochasticity in iteration 0, and, when resuming,
+   a directory left by a completed iteration -- runs to completion: for every number of
+   iterations, every per-iteration number of samples, every combination of output directory, save
+   strategy, plotting, export, sanity checks, dry run, transitions, callbacks, terminate pattern,
+   fresh-stochasticity pattern, return_final_position.  No branch raises. *)
+Theorem C27_total : forall (o : opts) (e : env), valid o e -> exists r : result, run fixed o e = Ok r.
+Proof. exact total_ok. Qed.
+
+(* The global RNG stack is balanced: at return its depth is the depth at entry -- or, when a
+   resumed run has loaded the pickled random state (setState), the depth of that pickled stack --
+   for EVERY option record (valid or not: whenever the function returns), including dry_run,
+   termination by the callback and resume with nothing left to do. *)
+Theorem C27_rng_balanced : forall (o : opts) (e : env) (r : result),
+  run fixed o e = Ok r ->
+  r_depth r = (if r_state_loaded r then saved_depth e else depth0 e).
+Proof. exact rng_balanced. Qed.
+
+(* ... already per iteration, whichever way the loop body is left (continue / break / end) *)
+Theorem C27_iteration_balanced : forall (o : opts) (e : env) (i : nat) (s s' : lstate) (b : bool),
+  iteration fixed o e i s = Ok (s', b) -> depth s' = depth s.
+Proof. exact iteration_depth. Qed.
+
+(* Result shape: a pair is returned iff return_final_position; after an executed iteration the
+   sample list is a one-element plain list for zero samples and 2n mirrored residual samples
+   otherwise; a dry run leaves sample list and files alone and never breaks. *)
+Theorem C27_result_tuple : forall (v : variant) (o : opts) (e : env) (r : result),
+  run v o e = Ok r -> r_tuple r = ret_pos o.
+Proof. exact result_tuple. Qed.
+
+Theorem C27_result_shape : forall (v : variant) (o : opts) (e : env) (i : nat) (s s' : lstate) (b : bool),
+  iteration v o e i s = Ok (s', b) -> dry o = false ->
+  sl_n s' = (if nsamp o i =? 0 then 1 else 2 * nsamp o i) /\ sl_res s' = negb (nsamp o i =? 0).
+Proof. exact iteration_result. Qed.
+
+Theorem C27_dry_run : forall (v : variant) (o : opts) (e : env) (i : nat) (s s' : lstate) (b : bool),
+  iteration v o e i s = Ok (s', b) -> dry o = true ->
+  sl_n s' = sl_n s /\ sl_res s' = sl_res s /\ files s' = files s /\ b = false.
+Proof. exact iteration_dry. Qed.
+
+(* Files: nothing is ever written into the directory of an earlier call, and with
+   output_directory=None nothing is written at all; every new file carries the name the save
+   strategy prescribes ("latest", or "iteration_i" with i < total_iterations). *)
+Theorem C27_files_only_in_outdir : forall (o : opts) (e : env) (r : result),
+  run fixed o e = Ok r ->
+  r_foreign r = [] /\ (outdir o = false -> r_files r = files0 e).
+Proof. exact no_foreign_no_stray. Qed.
+
+Theorem C27_files_follow_strategy : forall (o : opts) (e : env) (r : result) (g : file),
+  run fixed o e = Ok r -> has (r_files r) g = true -> has (files0 e) g = true \/ name_ok o g.
+Proof. exact files_follow_strategy. Qed.
+
+(* ---- the pinned control flow is refuted on three counts (each witness is replayed on the
+        implementation by the check: corpus/C27) ---- *)
+
+(* F8: dry_run leaves total_iterations entries on the RNG stack, a terminate callback one *)
+Theorem C27_orig_rng_leak_refuted :
+  exists (o : opts) (e : env) (r : result),
+    valid o e /\ run orig o e = Ok r /\ r_depth r <> depth0 e /\ r_state_loaded r = false.
+Proof.
+  exists (mkOpts 3 (fun _ => 2) true false false false false false true true (fun _ => true) false
+                 (fun _ => false) 2 (fun _ => false) true false), e_base.
+  eexists. split; [apply valid_concrete; cbn; auto|].
+  split; [vm_compute; reflexivity|]. cbn. split; [discriminate|reflexivity].
+Qed.
+
+Theorem C27_orig_rng_leak_terminate_refuted :
+  exists (o : opts) (e : env) (r : result),
+    valid o e /\ run orig o e = Ok r /\ r_depth r <> depth0 e /\ r_state_loaded r = false.
+Proof.
+  exists (mkOpts 3 (fun _ => 2) true false false false false false true false (fun _ => true) true
+                 (fun i => i =? 1) 2 (fun _ => false) true false), e_base.
+  eexists. split; [apply valid_concrete; cbn; auto|].
+  split; [vm_compute; reflexivity|]. cbn. split; [discriminate|reflexivity].
+Qed.
+
+(* sanity_checks=False with an output directory raises UnboundLocalError *)
+Theorem C27_orig_unbound_refuted :
+  exists (o : opts) (e : env), valid o e /\ run orig o e = Err EUnbound.
+Proof.
+  exists (mkOpts 2 (fun _ => 2) true true false false false false false false (fun _ => true) false
+                 (fun _ => false) 2 (fun _ => false) true false), e_base.
+  split; [apply valid_concrete; cbn; auto|vm_compute; reflexivity].
+Qed.
+
+(* output_directory=None after a call with a directory writes into that directory *)
+Theorem C27_orig_stale_directory_refuted :
+  exists (o : opts) (e : env) (r : result),
+    valid o e /\ outdir o = false /\ run orig o e = Ok r /\ r_foreign r <> [].
+Proof.
+  exists (mkOpts 1 (fun _ => 2) true false false false false false true false (fun _ => true) false
+                 (fun _ => false) 2 (fun _ => false) true false), (mkEnv 1 [] None 1 true false).
+  eexists. split; [apply valid_concrete; cbn; auto|].
+  split; [reflexivity|]. split; [vm_compute; reflexivity|]. cbn. discriminate.
+Qed.
+
+(* each fix is needed on its own: with only the other two applied the witness still fails *)
+Theorem C27_each_fix_needed :
+  (exists o e r, valid o e /\ run (mkVar false true true) o e = Ok r /\ r_depth r <> depth0 e /\ r_state_loaded r = false) /\
+  (exists o e, valid o e /\ run (mkVar true false true) o e = Err EUnbound) /\
+  (exists o e r, valid o e /\ outdir o = false /\ run (mkVar true true false) o e = Ok r /\ r_foreign r <> []).
+Proof. exact each_fix_needed. Qed.
+
+(* ---- non-vacuity: a valid configuration with output directory, resume from a directory left by
+        iteration 0 of a two-sample run, termination by callback; the model returns, balanced ---- *)
+Example C27_valid_resume_example :
+  let o := mkOpts 3 (fun _ => 2) true true false true true true true false (fun i => negb (i =? 1)) true
+                  (fun i => i =? 1) 1 (fun i => i =? 1) true true in
+  let e := mkEnv 2 [FRandomState; FLast; FSample Latest 0; FSample Latest 1; FSample Latest 2; FSample Latest 3;
+                    FMean Latest; FEnergyHist Latest; FMinisanityHist Latest; FMinisanityTxt; FCounting]
+                 (Some 0) 2 false false in
+  match run fixed o e with
+  | Ok r => r_depth r = 2 /\ r_state_loaded r = true /\ r_n r = 4 /\ r_res r = true /\
+            r_acts r = [APush 1; ATransition 1; AMinimise 1 2; AInspect 1 3; ATerminate 1 true; APop]
+  | Err _ => False
+  end.
+Proof. vm_compute. auto. Qed.
